@@ -56,11 +56,11 @@ theorem impl_refines_spec_partial (pre : Log) (t : Tree) (hs : safe t = true) :
 def demoTree : Tree :=
   .call 0 Flags.all (.seq (.put 1 2) (.seq (.notify 1)
     (.seq (.try_ (.call 1 Flags.all (.seq (.put 1 3) (.seq (.notify 2)
-              (.seq (.native (.transfer 0 2 3 true) Flags.all (.put 0 7))
+              (.seq (.native false (.transfer 0 2 3 true) Flags.all (.put 0 7) .skip)
               (.seq (.call 2 Flags.all (.put 0 9)) .throw)))))
             true (.seq (.notify 3) (.call 3 (Flags.ofNat 5) (.ifp 1 .throw)))
             true (.put 3 3))
-    (.seq (.native (.setFee 777) Flags.all .skip) (.put 2 2)))))
+    (.seq (.native false (.setFee 777) Flags.all .skip .skip) (.put 2 2)))))
 
 def demoPre : Log := [.set (gasTab, 1) 10, .set (3, 0) 1, .set (policyTab, 0) 1000]
 
@@ -154,11 +154,32 @@ theorem impl_refines_spec_unless_finally_commit (pre : Log) (t : Tree) (hd : (sp
     is not applied, so the narrowed theorem covers it; on `finallyCallWitness` the rule is applied. -/
 def finallyNormalPath : Tree :=
   .call 0 Flags.all (.try_ (.put 0 1) true .skip true (.seq (.call 1 Flags.all (.seq (.put 1 1) (.notify 3)))
-    (.native (.transfer 0 1 2 true) Flags.all (.put 2 2))))
+    (.native false (.transfer 0 1 2 true) Flags.all (.put 2 2) .skip)))
 
 example : safe finallyNormalPath = false := by decide
 example : (specKRun [.set (gasTab, 0) 5] finallyNormalPath).2 = false := by decide
 example : (implRun [.set (gasTab, 0) 5] finallyNormalPath).eff = (specRun [.set (gasTab, 0) 5] finallyNormalPath).eff :=
+  impl_refines_spec_unless_finally_commit _ _ (by decide)
+/-- the stage-4 natives in one tree: NEO transfer with a payment program and the deferred GAS reward
+    (in the frame of the native method, as the driver builds it), a vote, a Notary deposit, a role designation, a whitelisted fee,
+    a contract update, all in a callee that throws (rolled back), then again committed, then the
+    callee destroys itself. -/
+def nativesTree : Tree :=
+  let n (o : NOp) : Tree := .native false o Flags.all .skip .skip
+  let ops (tag : Nat) : Tree :=
+    -- NEO.transfer: the method proper with its payment program, then (inside the same frame) the
+    -- deferred GAS minting for sender and receiver; NEO.vote likewise
+    .seq (.native false (.neoXfer 1 2 true tag) Flags.all (.put 3 3)
+      (.seq (.native true (.mint 99 tag) Flags.all .skip .skip) (.native true (.mint 1 tag) Flags.all .skip .skip)))
+    (.seq (.native false (.vote true (tag + 1)) Flags.all .skip (.native true (.mint 99 (tag + 1)) Flags.all .skip .skip))
+    (.seq (n (.transfer 0 notaryAcc minDeposit false)) (.seq (n (.designate 8 1)) (.seq (n (.setWl 3 77)) (n .update)))))
+  .call 0 Flags.all (.seq (.try_ (.call 3 Flags.all (.seq (ops 1) .throw)) true (.notify 1) false .skip)
+    (.seq (.call 3 Flags.all (ops 3)) (.call 3 Flags.all (.seq (.put 0 1) (.native false .destroy Flags.all .skip .skip)))))
+
+def nativesPre : Log := [.set (neoTab, 3) 10, .set (rewardTab, 3) 5, .set (gasTab, 3) 100000000, .set (mgmtTab, 99) 5]
+
+example : (specKRun nativesPre nativesTree).2 = false ∧ (specKRun nativesPre nativesTree).1.halt = true := by decide
+example : (implRun nativesPre nativesTree).eff = (specRun nativesPre nativesTree).eff :=
   impl_refines_spec_unless_finally_commit _ _ (by decide)
 example : (specKRun [] finallyCallWitness).2 = true := by decide
 example : (implRun [] finallyCallWitness).eff = (specKRun [] finallyCallWitness).1.eff := impl_refines_specK _ _
@@ -276,7 +297,7 @@ theorem before_after_kept (pre : Log) (c0 c1 : Nat) (fl0 fl1 : Flags) (a body ca
 -- callback + nested call + throw, catch = notify, after = put
 example :
     let a : Tree := .seq (.put 1 2) (.notify 1)
-    let body : Tree := .seq (.put 1 3) (.seq (.notify 2) (.seq (.native (.transfer 0 2 3 true) Flags.all (.put 0 7))
+    let body : Tree := .seq (.put 1 3) (.seq (.notify 2) (.seq (.native false (.transfer 0 2 3 true) Flags.all (.put 0 7) .skip)
       (.seq (.call 2 Flags.all (.put 0 9)) .throw)))
     (implRun demoPre (.call 0 Flags.all (.seq a (.seq (.try_ (.call 1 Flags.all body) true (.notify 3) false .skip) (.put 2 2))))).eff =
       (true, [.set (0, 2) 2, .set (0, 1) 2] ++ demoPre, [(0, 1), (0, 3)]) :=
@@ -333,7 +354,7 @@ theorem callee_exception_undone (c' : Nat) (fl : Flags) (body : Tree) (x : Ctx) 
 -- callee writes, notifies, moves GAS, calls a third contract and throws
 example :
     let s : ISt := ⟨[.set (0, 1) 2], [[.set (gasTab, 1) 10]], [(0, 1)], false⟩
-    let body : Tree := .seq (.put 1 3) (.seq (.notify 2) (.seq (.native (.transfer 0 7 3 false) Flags.all .skip)
+    let body : Tree := .seq (.put 1 3) (.seq (.notify 2) (.seq (.native false (.transfer 0 7 3 false) Flags.all .skip .skip)
       (.seq (.call 2 Flags.all (.put 0 9)) .throw)))
     im (.call 1 Flags.all body) ⟨0, Flags.all, true, true⟩ s = .thrown { s with exc := true } := rfl
 
@@ -414,6 +435,13 @@ theorem facts_required_flags (f : Flags) :
     (f.r && f.w && f.n) = f.has (need "PolicyContract.blockAccount") ∧
     (f.r && f.w) = f.has (need "PolicyContract.unblockAccount") ∧
     (f.r && f.w && f.c && f.n) = f.has (need "ContractManagement.deploy") ∧
+    (f.r && f.w && f.c && f.n) = f.has (need "ContractManagement.update") ∧
+    (f.r && f.w && f.n) = f.has (need "ContractManagement.destroy") ∧
+    (f.r && f.w && f.n) = f.has (need "RoleManagement.designateAsRole") ∧
+    (f.r && f.w && f.n) = f.has (need "PolicyContract.setWhitelistFeeContract") ∧
+    (f.r && f.w && f.n) = f.has (need "PolicyContract.removeWhitelistFeeContract") ∧
+    (f.r && f.w && f.c && f.n) = f.has (need "NeoToken.transfer") ∧
+    (f.r && f.w && f.n) = f.has (need "NeoToken.vote") ∧
     f.mut = decide (f.toNat &&& ExecFacts.wrapMask ≠ 0) := by
   obtain ⟨r, w, c, n⟩ := f
   cases r <;> cases w <;> cases c <;> cases n <;> decide
